@@ -14,6 +14,10 @@
     ser <byt|str|os|path> <hex>                  -> bytes <hex> | str <hex> | os_unix <hex> | err
     bstr <bstr_ref|bstring|cow_borrowed|cow_owned> <byt|str> <hex>
                                                  -> ok <hex> borrowed=<0|1> | err invalid_value | err no_impl
+    hint <entry>                                 -> deserialize_bytes | deserialize_byte_buf | deserialize_str
+                                                  | deserialize_string | deserialize_seq | deserialize_any | none
+        (the `Deserializer` method the entry point calls according to the generated table;
+         entry also accepts os_owned: `none` = left to std's `OsString`)
     rows                                         -> rows <n-bad> <file:line>=ok|BAD ...
 
   Hex is lower-case, `-` for the empty string.  Unknown input -> `?`.
@@ -155,6 +159,19 @@ def handle (line : String) : String :=
       | some r => showVisit (bstrConv valid r p) none
       | none => "err no_impl"
     | _, _, _ => "?"
+  | ["hint", en] =>
+    let ke : Option (HipKind × Entry) := if en == "os_owned" then some (.os, .owned) else entryOf en
+    match ke with
+    | some (k, e) =>
+      match entryHint Gen.Visitors.deRows k e with
+      | some .bytes => "deserialize_bytes"
+      | some .byteBuf => "deserialize_byte_buf"
+      | some .str => "deserialize_str"
+      | some .string => "deserialize_string"
+      | some .seq => "deserialize_seq"
+      | some .any => "deserialize_any"
+      | none => "none"
+    | none => "?"
   | ["rows"] => rowsLine
   | _ => "?"
 
